@@ -748,6 +748,47 @@ class C19MemoState(MultiFunction):
         return f"terminal@{self.salt}<{sstr(o)}>"
 
 
+def _logged(fn):
+    """What downstream code does to handlers: a signature-preserving decorator (functools.wraps)."""
+    import functools
+
+    @functools.wraps(fn)
+    def wrapper(self, *args, **kwargs):
+        self.log.append(fn.__name__)
+        return fn(self, *args, **kwargs)
+
+    return wrapper
+
+
+class C19Decorated(MultiFunction):
+    """Post-order and cut-off handlers behind a functools.wraps decorator, and one with a keyword-only parameter:
+    which handlers are cut-offs is decided from the handler's signature."""
+
+    def __init__(self):
+        MultiFunction.__init__(self)
+        self.log = []
+
+    @_logged
+    def expr(self, o, *ops):
+        return f"expr:{type(o).__name__}[" + ",".join(map(str, ops)) + "]"
+
+    @_logged
+    def terminal(self, o):
+        return f"terminal<{sstr(o)}>"
+
+    def sin(self, o, a, *, tag="k"):
+        return f"sin@{tag}[{a}]"
+
+
+def decorated_ref(o):
+    if o._ufl_is_terminal_:
+        return f"terminal<{sstr(o)}>"
+    ops = [decorated_ref(c) for c in o.ufl_operands]
+    if isinstance(o, Sin):
+        return f"sin@k[{ops[0]}]"
+    return f"expr:{type(o).__name__}[" + ",".join(ops) + "]"
+
+
 def memo_state_ref(o, salt):
     if isinstance(o, Sin):
         return f"sin@{salt}<{sstr(o)}>"
@@ -971,6 +1012,13 @@ def part_b_single(cx, mk, fully_shared):
                     cx.ok()
                     if gotm != wantm:
                         cx.bad("B:memoized_handler:instance-state", f"salts {salts}, instance {salt}: got {show(gotm[1])} want {show(wantm[1])}")
+        if famkey == "str":
+            gotd = run_it(lambda: map_expr_dag(C19Decorated(), e))
+            wantd = ("ok", decorated_ref(e))
+            cx.tr()
+            cx.ok()
+            if gotd != wantd:
+                cx.bad("B:decorated-handlers:result", f"got {show(gotd[1])} want {show(wantd[1])}")
         # ---- Transformer.visit (tree semantics, base table has terminal=reuse)
         reft = RefAlgo(TR_BASE, spec)
         wantt = run_it(lambda: reft(e))
